@@ -220,6 +220,8 @@ def run_hdres():
 
 
 def run_hrule():
+    from .common import defaults_facts
+    defaults_facts(['core.Hessdiag.__init__', 'core.Hessian.__init__'])
     m = mods(); fd, core = m['fd'], m['core']
     with warnings.catch_warnings():
         warnings.simplefilter('ignore')
